@@ -30,7 +30,7 @@ EXPLANATION = (
     '(H^H H + s I) W_mmse = H^H, W_mmse(s=0) H = I, and that Blast selects MMSE exactly when noise_var > 0. Alamouti and '
     'MRT (elementwise code) are not interpreted. Not decided: whether util.misc.gmd honours the GMD contract, '
     'floating-point error, conditioning.'
-    ' General rules also applied here (see DESIGN 10.5): validate-before-commit (no `raise` reachable after the object was already changed in a public mutator); input immutability (no in-place modification of an array argument, alias- and view-aware). C04.h: the effective singular-value tolerance of every gmd call of the library is 0 (scale invariance).')
+    ' General rules also applied here (see DESIGN 10.5): validate-before-commit (no `raise` reachable after the object was already changed in a public mutator); input immutability (no in-place modification of an array argument, alias- and view-aware). C04.h: the effective singular-value tolerance of every gmd call of the library is 0 (scale invariance). C04.n: the no-rotation flag of the GMD sweep is set whenever the two diagonal entries it rotates are equal (all weak orderings enumerated; no 0/0 for identity / scaled unitary / permutation channels).')
 
 SCHEMES = [  # class, channel shape, data size, expected encode shape, received shape
     ('Blast', ('Nr', 'Nt')), ('MRC', ('Nr', 'Nt')), ('SVDMimo', ('Nr', 'Nt')), ('GMDMimo', ('Nr', 'Nt')),
@@ -216,6 +216,8 @@ def check(ctx: Ctx) -> None:
     auto_memo_check(ctx, 'C04.c', [MI])
     from .c20 import check_gmd_bookkeeping
     check_gmd_bookkeeping(ctx, 'C04.g')
+    from .c20 import check_gmd_rotation_guard
+    check_gmd_rotation_guard(ctx, 'C04.n')
     from .c20 import check_gmd_threshold
     check_gmd_threshold(ctx, 'C04.h', [MI])
     from ..idioms import check_accumulators_initialised, check_per_iteration_leaks
@@ -359,6 +361,7 @@ def synthetic():
 MUTANTS = [
     Mutant('phase-by-self-normalisation', MI, 'MRT._calc_precoder',
            [('replace', 'np.exp(-1j * np.angle(channel)).T', '(channel.conj() / np.abs(channel)).T')], r'C04\.k:MRT\._calc_precoder:z-over-abs-z'),
+    Mutant('gmd-strict-no-rotation-test', 'pyphysim/util/misc.py', 'gmd', [('replace', 'if d[i] >= sigma_bar:', 'if d[i] > sigma_bar:')], r'C04\.n:gmd'),
     Mutant('geometric-mean-over-all-singular-values', 'pyphysim/util/misc.py', 'gmd',
            [('replace', 'sigma_bar = np.prod(S[0:p]) ** (1.0 / p)', 'sigma_bar = math.exp(np.sum(np.log(S[0:p])) / S.size)')], r'C04\.l:gmd:count:S'),
     Mutant('gmd-absolute-tolerance-default', 'pyphysim/util/misc.py', 'gmd',
